@@ -473,9 +473,12 @@ class Gen:
                 if op == "ins" and i == 0 and b["code"] and "lines" in p:
                     fs = [f for f in case["funcs"]
                           if f["entries"] == [b["id"]]]
-                    if len(fs) == 1 and rng.random() < 0.5:
+                    if len(fs) == 1 and rng.random() < self.knobs.get(
+                            "fnscope_p", 0.5):
                         e["via"] = "fnscope"
                         e["fn"] = fs[0]["name"]
+                        e["anywhere"] = rng.random() < self.knobs.get(
+                            "anywhere_p", 0.3)
                 edits.append(e)
             else:
                 edits.append({"op": "del", "b": b["id"], "i": i, "n": cnt,
